@@ -290,9 +290,13 @@ fn gen_sel_case(rng: &mut Rng, sum: &mut Summary) -> SelCase {
     let mut dup = false;
     for i in 0..n {
         let class = if rng.chance(3, 4) { class_main } else { rng.below(9) };
-        let id = if !cands.is_empty() && rng.chance(1, 40) { dup = true; rng.pick(&cands).0 } else { xor(&key, &dist_pattern(rng, class)) };
+        // a repeated candidate is an identical entry (same id, same address): the order of two
+        // identical entries is unobservable, so a stable and an unstable sort give the same answer
+        if !cands.is_empty() && rng.chance(1, 40) { dup = true; let c = *rng.pick(&cands); cands.push(c); continue; }
+        let id = xor(&key, &dist_pattern(rng, class));
+        if !seen.insert(id) { dup = true; let c = *cands.iter().find(|c| c.0 == id).unwrap(); cands.push(c); continue; }
         cands.push((id, i as u64 + 1));
-        if seen.insert(id) { trust.push((id, pick_trust(rng, &palette))); }
+        trust.push((id, pick_trust(rng, &palette)));
     }
     // order of the input: sorted by distance (what the engine passes), reversed, or shuffled
     let order = rng.below(4);
@@ -498,9 +502,9 @@ fn main() {
     let mut sum = Summary::default();
     sum.rule = "three families. ev: one evaluation = one query (candidate set / reason / should_evict / should_evict_for_trust / failure count) answered by the real EvictionManager inside a generated event history, compared with Model/Eviction.v and with the policy read off the history. sel: one evaluation = one select_peers / select_storage_peers call of the real TrustAwarePeerSelector with a scripted TrustProvider, compared (order and addresses) with Model/Selector.v in bit-exact binary64. eng: one evaluation = one find_nodes / select_query_peers / select_storage_peers answer of the real DhtCoreEngine inside an add/join/failure/evict history. Non-trivial = a selection over >= 2 candidates, or a candidate-set query with >= 1 candidate; distinct = different (inputs, answer)".into();
     let thorough = args.thorough();
-    let n_ev: u64 = args.extra.get("ev").and_then(|s| s.parse().ok()).unwrap_or(if thorough { 6000 } else { 500 });
-    let n_sel: u64 = args.extra.get("sel").and_then(|s| s.parse().ok()).unwrap_or(if thorough { 24000 } else { 1600 });
-    let n_eng: u64 = args.extra.get("eng").and_then(|s| s.parse().ok()).unwrap_or(if thorough { 600 } else { 50 });
+    let n_ev: u64 = args.extra.get("ev").and_then(|s| s.parse().ok()).unwrap_or(if thorough { 4000 } else { 400 });
+    let n_sel: u64 = args.extra.get("sel").and_then(|s| s.parse().ok()).unwrap_or(if thorough { 12000 } else { 1200 });
+    let n_eng: u64 = args.extra.get("eng").and_then(|s| s.parse().ok()).unwrap_or(if thorough { 400 } else { 40 });
     let mut seen: HashSet<u64> = HashSet::new();
     let mut distinct = |sum: &mut Summary, key: String| {
         use std::hash::{Hash, Hasher};
